@@ -7,11 +7,18 @@ Tie to the code:
     theorem no longer compiles AND the kernel-computed list bad_members actual_schema is replayed
     row by row on the implementation here (keys tagkey: / none-child: / member-missing: ...), so
     the defect is reported with a concrete failing input.
-  * engine correspondence, for every class: real _to_element_tree() vs Model.Schema.serialise,
-    real create_class_from_element_tree vs Model.Schema.parse (also on rearranged / duplicated /
-    foreign-extended trees), AttributeValue documents.
-  * implementation-level oracle: cls_from_string(obj.to_string()) is structurally equal, re-serialises
-    byte-identically, known children are in c_child_order order, foreign content is still there.
+  * coq/Gen/SchemaNames.v (same translator): the intern table id -> text and the look-alike names (same local
+    name as a declared attribute / child key, other full name) the generators use; the kernel checks that the
+    table is injective, that no class has two keys with one local name, and that every generated look-alike
+    is foreign to its class (C12_names_faithful, C12_actual_lookalike_free, C12_lookalikes_generated).
+  * engine correspondence, for every class: real _to_element_tree() vs Model.SchemaDoc.serialise_doc (tails
+    compared: there must be none), real create_class_from_element_tree vs Model.SchemaDoc.parse_doc on
+    straight / pretty-printed (tails, white-space text, attribute order) / look-alike-child /
+    look-alike-attribute / rearranged / duplicated / foreign-extended documents, AttributeValue documents.
+  * implementation-level oracles: cls_from_string(obj.to_string()) is structurally equal, re-serialises
+    byte-identically, known children are in c_child_order order, foreign content is still there; every
+    parsed document is checked against the library's own c_attributes / c_children (doc_check) and the
+    parsed object must round-trip; element_to_extension_element -> ELEMENT_FROM_STRING conversion.
 """
 import copy
 import re
@@ -19,33 +26,40 @@ from xml.etree import ElementTree as ET
 
 import core
 import corr_retry
+import c12_gen
 import schema_gen
 import translate_schema
+from c12_gen import Gen12, et_to_dcoq, et_to_dval, doc_string
 from core import Exn, call
-from schema_gen import Gen, obj_to_coq, obj_to_val, et_to_coq, et_to_val
+from schema_gen import obj_to_coq, obj_to_val
+from translate_schema import split_name
 
 CLAIM = {
-    "text": "Coq theorems (Props/C12.v) about a generic model of the SamlBase engine over table rows: for EVERY schema S and every instance tree (unbounded depth and cardinalities, hand-written nested induction) whose classes have well-formed rows, parse S (serialise S i) = norm i and serialise S (norm i) = serialise S i where norm only reorders into table order (C12_roundtrip, incl. the AttributeValue typed-text family; C12_roundtrip_schema: under wf_schema S only the object-level conditions obj_ok are asked of the instance); known children are emitted in c_child_order order (C12_sequence_order); an unknown child or attribute is kept as extension content and re-emitted (C12_foreign_preserved); and the kernel re-evaluates wf_row on the tables of ALL ~1156 classes REGENERATED from the working tree on every run: wf_schema actual_schema = true with no exception list (C12_actual_schema_wf, C12_no_bad_rows: C12_bad_rows = []), so the round trip holds for every object of every class (C12_roundtrip_actual), each class having such objects (C12_every_class_has_instances); ELEMENT_BY_TAG / ELEMENT_FROM_STRING agree. Tie: reflection translator + per-class engine correspondence (cls(), serialise, parse incl. shuffled/duplicated/foreign-extended trees) + implementation-level round-trip oracle through to_string()/from_string.",
+    "text": "Coq theorems (Props/C12.v) about a generic model of the SamlBase engine over table rows: for EVERY schema S and every instance tree (unbounded depth and cardinalities, hand-written nested induction) whose classes have well-formed rows, parse S (serialise S i) = norm i and serialise S (norm i) = serialise S i where norm only reorders into table order (C12_roundtrip, incl. the AttributeValue typed-text family; C12_roundtrip_schema: under wf_schema S only the object-level conditions obj_ok are asked of the instance); known children are emitted in c_child_order order (C12_sequence_order); an unknown child or attribute is kept as extension content and re-emitted (C12_foreign_preserved); and the kernel re-evaluates wf_row on the tables of ALL ~1156 classes REGENERATED from the working tree on every run: wf_schema actual_schema = true with no exception list (C12_actual_schema_wf, C12_no_bad_rows: C12_bad_rows = []), so the round trip holds for every object of every class (C12_roundtrip_actual), each class having such objects (C12_every_class_has_instances); ELEMENT_BY_TAG / ELEMENT_FROM_STRING agree. Look-alike names: attributes and child tags are keyed by their full name, a namespace-qualified name is never an unqualified one (C12_qualified_never_unqualified, C12_qualified_is_lookalike); in any class an attribute whose local name is that of a declared one but whose full name differs (own / xml / foreign namespace, or unqualified against a declared xml:lang) is kept with its value as extension attribute while every declared attribute is read from exactly its own name - alone or together - and an unknown child with a known child's local name in another namespace is kept whole (C12_qualified_attr_is_extension, C12_lookalike_is_extension; for today's regenerated tables and intern table C12_names_faithful, C12_actual_lookalike_free, C12_lookalike_is_foreign_actual, C12_lookalikes_generated). Documents with tails (Model/SchemaDoc.v): tails never influence parsing, the serialised document has none, unknown children keep text (also white space only) and children at every depth verbatim (C12_tails_ignored, C12_doc_roundtrip, C12_doc_foreign_preserved). Tie: reflection translator + per-class engine correspondence (cls(), serialise incl. tails, parse incl. pretty-printed / look-alike-child / look-alike-attribute / shuffled / duplicated / foreign-extended documents; every class gets look-alike attributes together with and without the declared one, own-namespace look-alike of every declared attribute, on every run) + implementation-level oracles: round trip through to_string()/from_string, document check against the library's own tables, ExtensionElement conversion.",
     "note": "Trusted: Coq kernel + vm_compute; the reflection translator and name interning; the model of the engine is hand-written and tested against the code for every class on every run. ElementTree's text layer (prefixes, escaping, xmlns handling) is not modelled: it is exercised by the byte-level oracle only. ExtensionElement capture is modelled as the identity on element trees. AttributeValue float/double conversions are not modelled. The ten rows that used to be ill-formed (xmldsig.KeyInfo.encrypted_key tag key, three placeholder child classes None, six classes with a member __init__ never creates) are repaired in the library (proposed_fix/C12-1..3); the rows as they were are kept in Model/SchemaBeforeFix.v with witness theorems C12_*_before_fix_refuted. Remaining deviation of the engine, reported as a finding: a saml.AttributeValue built with child elements only gains xsi:nil=true when parsed back (C12_av_nil_deviation).",
-    "technique": "machine-checked proof (Coq, nested induction over instance trees) + regenerated-table obligation + per-class model/implementation correspondence + round-trip oracle",
+    "technique": "machine-checked proof (Coq, nested induction over instance trees) + regenerated-table and regenerated-name-table obligations + per-class model/implementation correspondence on objects and documents + round-trip / document / conversion oracles",
 }
 TRUSTED = [
-    "harness/translate_schema.py: reflection of c_children / c_attributes / c_child_order / c_cardinality / c_value_type, members after __init__(), overridden methods, ELEMENT_BY_TAG / ELEMENT_FROM_STRING, VALIDATOR keys; interning of names to N (one dict, injective)",
-    "modelled: create_class_from_element_tree, harvest_element_tree, _convert_element_tree_to_member, _convert_element_attribute_to_member, _add_members_to_element_tree, _to_element_tree, AttributeValueBase.__init__/harvest_element_tree/set_text/set_type; ExtensionElement <-> element tree is modelled as the identity; NOT modelled (tested by the byte-level oracle only): ElementTree.tostring / defusedxml.fromstring",
+    "harness/translate_schema.py: reflection of c_children / c_attributes / c_child_order / c_cardinality / c_value_type, members after __init__(), overridden methods, ELEMENT_BY_TAG / ELEMENT_FROM_STRING, VALIDATOR keys; interning of names to N (one dict; the emitted table Gen/SchemaNames.v is proved injective by the kernel, that it holds the library's strings is the translator's)",
+    "modelled: create_class_from_element_tree, harvest_element_tree, _convert_element_tree_to_member, _convert_element_attribute_to_member, _add_members_to_element_tree, _to_element_tree, AttributeValueBase.__init__/harvest_element_tree/set_text/set_type; ExtensionElement <-> element tree is modelled as the identity on subtrees (tails dropped: Model/SchemaDoc.v); NOT modelled (tested by the byte-level oracle only): ElementTree.tostring / defusedxml.fromstring",
 ]
 ASSUMPTIONS = [
     "an attribute that __init__ presets to a non-None default (Attribute.name_format, Scope.regexp, SPCertEnc.verify_depth, KeyAuthority.verify_depth, RelatesTo.relationship_type, PolicyReference.digest_algorithm, and after repair C12-2 sslcert.{PublicKeyType_,DigSig,AsymmetricDecryption,AsymmetricKeyAgreement}.key_validation) is assumed set: an object whose such member was reset to None afterwards parses back with the default (obj_ok clause; lemma C12_default_deviation)",
     "AttributeValue objects are as the constructor/parser leave them (typed non-empty text, or empty text with xsi:nil first); an empty-text AttributeValue without xsi:nil (the constructor makes one when given child elements only, e.g. a NameID) gains xsi:nil=true on the round trip (C12_av_nil_deviation; oracle key av-nil-added:saml.AttributeValue, a known finding)",
-    "text is XML-representable (no C0 controls, no CR) in the byte-level oracle; empty text and absent text are identified there",
+    "text is XML-representable (no C0 controls, no CR) in the byte-level oracle; empty text and absent text are identified there; white-space-only text is compared verbatim",
+    "a literal xmlns:xs extension attribute (AttributeValue objects carry one) is a namespace declaration in XML text, not an attribute: generated look-alike / wrong-namespace copies of real children do not carry it, and attribute order is not permuted on elements that have it",
 ]
 RULE = ("every class x k generated instance trees (one with every declared attribute and child set, the rest random; list cardinalities 0..3, depth <= 3, "
-        "XML-special / non-ASCII text, foreign children and attributes at every level); non-trivial = instance with at least one known child or attribute "
+        "XML-special / non-ASCII / white-space text, foreign children (text AND children to depth 3) and attributes at every level, look-alike attributes (own / foreign / xml namespace, unqualified) together with and without the declared attribute, look-alike children; "
+        "documents: straight, pretty-printed with tails, look-alike child per known key, look-alike attributes first, shuffled, duplicated, foreign, wrong namespace, wrong root); non-trivial = instance with at least one known child or attribute "
         "(distinct by serialised content)")
 
-IMPORTS = "Model.Schema Gen.SchemaTables"
-SER_MODEL = "fun i : inst => show_result show_xtree (serialise actual_schema i)"
-PARSE_MODEL = ("fun p : N * xtree => show_result (show_inst actual_schema) "
-               "(parse x_xsi_nil x_xsi_type x_xmlns_xs actual_schema (fst p) (snd p))")
+IMPORTS = "Model.Schema Model.SchemaDoc Gen.SchemaTables"
+# documents are ElementTree elements WITH tails (Model.SchemaDoc.dtree): the serialised one must have none,
+# the parsed one may have any
+SER_MODEL = "fun i : inst => show_result show_dtree (serialise_doc actual_schema i)"
+PARSE_MODEL = ("fun p : N * dtree => show_result (show_inst actual_schema) "
+               "(parse_doc x_xsi_nil x_xsi_type x_xmlns_xs actual_schema (fst p) (snd p))")
 FRESH_MODEL = ("fun c : N => match find_row actual_schema c with "
                "Some r => show_inst actual_schema (fresh_inst x_xsi_nil r) | None => VE MODEL_DOMAIN end")
 XSI_NIL = "{http://www.w3.org/2001/XMLSchema-instance}nil"
@@ -104,44 +118,98 @@ def replay_bad_row(T, cid, m, reason, rng):
 
 
 # ---------------------------------------------------------------- structural comparison (oracle, no model)
+def _local(name):
+    return split_name(name)[1]
+
+
+def _ext_tag(e):
+    return "{%s}%s" % (e.namespace, e.tag) if e.namespace is not None else e.tag
+
+
+def _text_shape(t, has_children):
+    sh = ""
+    if t is not None and t != "" and not t.strip():
+        sh += ":ws-only"
+    elif t and t != t.strip():
+        sh += ":ws-edge"
+    if has_children:
+        sh += ":with-children"
+    return sh
+
+
+def ext_diff(a, b, depth=0):
+    """first difference between two ExtensionElement trees: (what, depth, detail) or None.  Empty text and no text
+    are the same document; everything else is compared verbatim."""
+    if _ext_tag(a) != _ext_tag(b):
+        return ("tag", depth, "%s vs %s" % (_ext_tag(a), _ext_tag(b)))
+    if list(a.attributes.items()) != list(b.attributes.items()):
+        return ("attrs", depth, "%r vs %r" % (a.attributes, b.attributes))
+    if (a.text or None) != (b.text or None):
+        return ("text" + _text_shape(a.text, bool(a.children)), depth, "%r vs %r" % (a.text, b.text))
+    if len(a.children) != len(b.children):
+        return ("children", depth, "%d vs %d children of <%s>" % (len(a.children), len(b.children), _ext_tag(a)))
+    for x, y in zip(a.children, b.children):
+        d = ext_diff(x, y, depth + 1)
+        if d:
+            return d
+    return None
+
+
 def first_difference(T, a, b, path=""):
-    """None if the two objects are structurally equal, else (class qname, member/what, detail)"""
+    """None if the two objects are structurally equal, else (class qname, member/what, detail, kind): kind names the
+    shape of content that differs (declared attribute / look-alike attribute / foreign attribute / look-alike child /
+    foreign element text, attributes, children at a depth ...)"""
     if a is None or b is None:
-        return None if a is b else ("?", "none", "%r vs %r" % (a, b))
+        return None if a is b else ("?", "none", "%r vs %r" % (a, b), "roundtrip-diff")
     if type(a) is not type(b):
-        return (T.qname[T.cid[type(a)]], "type", "%s vs %s" % (type(a).__name__, type(b).__name__))
+        return (T.qname[T.cid[type(a)]], "type", "%s vs %s" % (type(a).__name__, type(b).__name__), "roundtrip-diff")
     cid = T.cid[type(a)]
     row, qn = T.rows[cid], T.qname[cid]
-    for (_x, m, _t, _r) in row["attrs"]:
+    decl_locals = {_local(T.names[x]) for (x, _m, _t, _r) in row["attrs"]}
+    declared = {T.names[x] for (x, _m, _t, _r) in row["attrs"]}
+    kid_locals = {_local(T.names[c[0]]) for c in row["children"]}
+    for (x, m, _t, _r) in row["attrs"]:
         va, vb = getattr(a, T.names[m], None), getattr(b, T.names[m], None)
         if va != vb:
-            return (qn, T.names[m], "%r vs %r" % (va, vb))
+            look = [k for k in a.extension_attributes if _local(k) == _local(T.names[x])]
+            if look:
+                return (qn, T.names[m], "%r vs %r (the object also has the undeclared attribute %s)" % (va, vb, look[0]),
+                        "lookalike-attr:declared-member-changed")
+            return (qn, T.names[m], "%r vs %r" % (va, vb), "roundtrip-diff")
     if (a.text or None) != (b.text or None):
-        return (qn, "text", "%r vs %r" % (a.text, b.text))
+        return (qn, "text", "%r vs %r" % (a.text, b.text),
+                "elem-text" + _text_shape(a.text, any(l for _m, l in schema_gen._kids(T, a, row)) or bool(a.extension_elements)))
     ka, kb = schema_gen._kids(T, a, row), schema_gen._kids(T, b, row)
     for (m, la), (_m, lb) in zip(ka, kb):
         if len(la) != len(lb):
-            return (qn, T.names[m], "%d vs %d children" % (len(la), len(lb)))
+            return (qn, T.names[m], "%d vs %d children" % (len(la), len(lb)), "tagkey")
         for x, y in zip(la, lb):
             d = first_difference(T, x, y)
             if d:
                 return d
-    if list(a.extension_attributes.items()) != list(b.extension_attributes.items()):
-        return (qn, "extension_attributes", "%r vs %r" % (a.extension_attributes, b.extension_attributes))
-    ea = [schema_gen.ext_to_val(T, e) for e in a.extension_elements]
-    eb = [schema_gen.ext_to_val(T, e) for e in b.extension_elements]
-    if _norm_ext(ea) != _norm_ext(eb):
-        return (qn, "extension_elements", "%d vs %d" % (len(ea), len(eb)))
+    xa, xb = list(a.extension_attributes.items()), list(b.extension_attributes.items())
+    if xa != xb:
+        da, db = dict(xa), dict(xb)
+        k = next((k for k in list(da) + list(db) if da.get(k) != db.get(k)), None)
+        if k is None:
+            return (qn, "extension_attributes", "order %r vs %r" % ([p[0] for p in xa], [p[0] for p in xb]), "foreign-attr:order")
+        kind = "lookalike-attr" if (_local(k) in decl_locals and k not in declared) else "foreign-attr"
+        what = "lost" if k not in db else "invented" if k not in da else "value"
+        return (qn, k, "extension attribute %s: %r vs %r" % (k, da.get(k), db.get(k)), "%s:%s" % (kind, what))
+    ea, eb = list(a.extension_elements), list(b.extension_elements)
+    for i in range(max(len(ea), len(eb))):
+        x = ea[i] if i < len(ea) else None
+        y = eb[i] if i < len(eb) else None
+        ref = x if x is not None else y
+        kind = "lookalike-child" if ref.tag in kid_locals else "foreign-elem"
+        if x is None or y is None or _ext_tag(x) != _ext_tag(y):
+            return (qn, _ext_tag(ref), "extension element %d: %s vs %s (%d vs %d extension elements)" % (
+                i, x and _ext_tag(x), y and _ext_tag(y), len(ea), len(eb)), kind + (":lost" if len(ea) > len(eb) else ":invented" if len(ea) < len(eb) else ":tag"))
+        d = ext_diff(x, y)
+        if d:
+            return (qn, _ext_tag(x), "extension element <%s>, depth %d, %s: %s" % (_ext_tag(x), d[1], d[0], d[2]),
+                    "%s:%s:depth%d" % (kind, d[0], min(d[1], 3)))
     return None
-
-
-def _norm_ext(v):
-    # text layer: "" and None are the same document
-    if isinstance(v, list) and len(v) == 4 and isinstance(v[0], int) and isinstance(v[3], list):
-        return [v[0], v[1], v[2] or None, [_norm_ext(x) for x in v[3]]]
-    if isinstance(v, list):
-        return [_norm_ext(x) for x in v]
-    return v
 
 
 def order_ok(T, o):
@@ -199,14 +267,53 @@ def oracle_roundtrip(ctx, T, o, bad_classes):
         return "parse-none:%s" % qn, "from_string(to_string()) is None", s1
     d = first_difference(T, o, o2)
     if d:
-        kind = "tagkey" if d[1] not in ("text", "type", "extension_attributes", "extension_elements") and "children" in d[2] else "roundtrip-diff"
-        return "%s:%s.%s" % (kind, d[0], d[1]), "after from_string(to_string()): %s.%s differs: %s" % d, s1
+        return "%s:%s.%s" % (d[3], d[0], d[1]), "after from_string(to_string()): %s.%s differs: %s" % d[:3], s1
     s2 = o2.to_string()
     if s1 != s2:
         return "reserialise:%s" % qn, "second serialisation differs from the first", s1
     r = order_ok(T, o)
     if r:
         return "order:%s:%s" % r, "child %s of %s is out of c_child_order order" % (r[1], r[0]), s1
+    return None
+
+
+def _has_av(T, av, o):
+    cid = T.cid[type(o)]
+    if cid in av:
+        return True
+    return any(_has_av(T, av, k) for _m, l in schema_gen._kids(T, o, T.rows[cid]) for k in l if k is not None)
+
+
+def oracle_ext_conversion(T, av, o):
+    """the other way the library serialises / parses an element: as ExtensionElement.  element_to_extension_element(o)
+    written out and read back through the module's ELEMENT_FROM_STRING map (extension_element_to_element) is the same
+    object; the same element under another namespace is not taken for it.  Returns (key, what, xml) or None."""
+    import importlib
+    import saml2_tophat
+    cls = type(o)
+    qn = T.qname[T.cid[cls]]
+    mod = importlib.import_module(cls.__module__)
+    efs, ebt = getattr(mod, "ELEMENT_FROM_STRING", None), getattr(mod, "ELEMENT_BY_TAG", None)
+    if not efs or not ebt or ebt.get(cls.c_tag) is not cls or cls.c_tag not in efs or getattr(mod, "NAMESPACE", None) != cls.c_namespace:
+        return None
+    if _has_av(T, av, o):
+        return None     # AttributeValue: typed text, own deviations (see ASSUMPTIONS)
+    e = saml2_tophat.element_to_extension_element(o)
+    xml = call(e.to_string)
+    o2 = call(saml2_tophat.extension_element_to_element, e, efs, mod.NAMESPACE)
+    if isinstance(o2, Exn) or isinstance(xml, Exn):
+        return "ext-conversion:raises:%s" % qn, "extension_element_to_element(element_to_extension_element(o)) raised %r" % (o2,), None
+    if o2 is None or type(o2) is not cls:
+        return "ext-conversion:type:%s" % qn, "extension_element_to_element(element_to_extension_element(o)) is %r" % (o2,), xml
+    d = first_difference(T, o, o2)
+    if d:
+        return ("ext-conversion:%s:%s.%s" % (d[3], d[0], d[1]),
+                "element_to_extension_element(o) read back through ELEMENT_FROM_STRING: %s.%s differs: %s" % d[:3], xml)
+    wrong = saml2_tophat.ExtensionElement(cls.c_tag, translate_schema.WRONG_NS, text=o.text)
+    o3 = call(saml2_tophat.extension_element_to_element, wrong, efs, mod.NAMESPACE)
+    if o3 is not None:
+        return ("ext-conversion:wrong-ns-accepted:%s" % qn,
+                "an extension element <{%s}%s> was converted by %s.ELEMENT_FROM_STRING into %r" % (translate_schema.WRONG_NS, cls.c_tag, mod.__name__, o3), None)
     return None
 
 
@@ -236,9 +343,105 @@ def oracle_av_children_only(ctx, T, gen, cid):
         o2.extension_attributes = after
     d = first_difference(T, o, o2)
     if d:
-        return "roundtrip-diff:%s.%s" % (d[0], d[1]), "after from_string(to_string()): %s.%s differs: %s" % d, s1
+        return "%s:%s.%s" % (d[3], d[0], d[1]), "after from_string(to_string()): %s.%s differs: %s" % d[:3], s1
     if o2.to_string() != s1:
         return "reserialise:%s" % qn, "second serialisation differs from the first", s1
+    return None
+
+
+# ---------------------------------------------------------------- the property on DOCUMENTS (oracle, no model)
+def et_ext_diff(c, e, depth=0):
+    """document subtree c against the ExtensionElement e that captured it: verbatim except for tails"""
+    if c.tag != _ext_tag(e):
+        return ("tag", depth, "%s vs %s" % (c.tag, _ext_tag(e)))
+    if list(c.attrib.items()) != list(e.attributes.items()):
+        return ("attrs", depth, "%r vs %r" % (dict(c.attrib), e.attributes))
+    if c.text != e.text:
+        return ("text" + _text_shape(c.text, bool(len(c))), depth, "%r vs %r (tail %r)" % (c.text, e.text, c.tail))
+    if len(c) != len(e.children):
+        return ("children", depth, "%d vs %d children of <%s>" % (len(c), len(e.children), c.tag))
+    for x, y in zip(c, e.children):
+        d = et_ext_diff(x, y, depth + 1)
+        if d:
+            return d
+    return None
+
+
+def doc_check(T, av, cls, el, o):
+    """what the statement says about parsing a document, checked against the library's own tables: every attribute whose
+    full name is declared sets exactly its member, every other attribute is an extension attribute with its value
+    (look-alikes included), declared attributes that are absent are unset / at their preset, the text is the
+    element's text (never a tail), every child whose tag is not a key of c_children is an extension element equal
+    to the document subtree, in document order; every known child is parsed into its member.  Returns (key, what) or None."""
+    cid = T.cid[cls]
+    qn = T.qname[cid]
+    if o is None:
+        return "doc-parse-none:%s" % qn, "create_class_from_element_tree gave None for a <%s> document" % el.tag
+    if type(o) is not cls:
+        return "doc-type:%s" % qn, "parsed object is a %s" % type(o).__name__
+    cattr, cch = cls.c_attributes, cls.c_children
+    decl_locals = {_local(k) for k in cattr}
+    kid_locals = {_local(k) for k in cch}
+    if cid not in av:
+        for k, v in el.attrib.items():
+            if k in cattr:
+                got = getattr(o, cattr[k][0], None)
+                if got != v:
+                    look = [q for q in el.attrib if q != k and _local(q) == _local(k)]
+                    return ("doc-attr-declared%s:%s.%s" % (":with-lookalike" if look else "", qn, k),
+                            "attribute %s=%r of the document, member %s is %r%s" % (
+                                k, v, cattr[k][0], got, " (the document also has %s=%r)" % (look[0], el.attrib[look[0]]) if look else ""))
+            else:
+                got = o.extension_attributes.get(k)
+                if got != v:
+                    kind = "lookalike" if _local(k) in decl_locals else "foreign"
+                    return ("doc-%s-attr:%s.%s" % (kind, qn, k),
+                            "undeclared attribute %s=%r of the document: extension_attributes has %r" % (k, v, got))
+        extra = [k for k in o.extension_attributes if k not in el.attrib]
+        if extra:
+            return "doc-attr-invented:%s.%s" % (qn, extra[0]), "extension attribute %s is not in the document" % extra[0]
+        if [k for k in o.extension_attributes] != [k for k in el.attrib if k not in cattr]:
+            return "doc-attr-order:%s" % qn, "extension attributes are not in document order"
+        dfl = {T.names[m]: v for m, v in T.rows[cid]["defaults"]}
+        for k, (m, _t, _r) in cattr.items():
+            if k not in el.attrib and getattr(o, m, None) != dfl.get(m):
+                look = [q for q in el.attrib if _local(q) == _local(k)]
+                return ("doc-attr-absent%s:%s.%s" % (":with-lookalike" if look else "", qn, k),
+                        "the document has no attribute %s, member %s is %r%s" % (
+                            k, m, getattr(o, m, None), " (the document has %s=%r)" % (look[0], el.attrib[look[0]]) if look else ""))
+        if o.text != el.text:
+            return ("doc-text%s:%s" % (_text_shape(el.text, bool(len(el))), qn),
+                    "text of the element %r, of the object %r" % (el.text, o.text))
+    unknown = [c for c in el if c.tag not in cch]
+    xe = list(o.extension_elements)
+    for i in range(max(len(unknown), len(xe))):
+        c = unknown[i] if i < len(unknown) else None
+        e = xe[i] if i < len(xe) else None
+        tag = c.tag if c is not None else _ext_tag(e)
+        kind = "lookalike-child" if _local(tag) in kid_locals else "foreign-elem"
+        if c is None or e is None:
+            return ("doc-%s:%s:%s" % (kind, "lost" if e is None else "invented", qn),
+                    "unknown child %d <%s>: %d unknown children in the document, %d extension elements" % (i, tag, len(unknown), len(xe)))
+        d = et_ext_diff(c, e)
+        if d:
+            return ("doc-%s:%s:depth%d:%s" % (kind, d[0], min(d[1], 3), qn),
+                    "unknown child <%s>, depth %d, %s: %s" % (c.tag, d[1], d[0], d[2]))
+    for key, (member, mc) in cch.items():
+        docs = [c for c in el if c.tag == key]
+        v = getattr(o, member, None)
+        if isinstance(mc, list):
+            objs, kcls = list(v or []), mc[0]
+        else:
+            objs, kcls = ([v] if v is not None else []), mc
+            docs = docs[-1:]      # a repeated single-valued child: the last one wins (the engine as it is)
+        if len(docs) != len(objs):
+            return ("doc-known-child:%s.%s" % (qn, member),
+                    "%d <%s> children in the document, member %s holds %d" % (len(docs), key, member, len(objs)))
+        for c, k in zip(docs, objs):
+            if kcls in T.cid:
+                r = doc_check(T, av, kcls, c, k)
+                if r:
+                    return r
     return None
 
 
@@ -282,10 +485,27 @@ def mutations(ctx, T, gen, cid, tree):
         k = r.choice(list(t))
         if k.tag.startswith("{"):
             k.tag = "{urn:pv:wrong-ns}" + k.tag.split("}")[1]
+            for x in k.iter():      # a literal xmlns:xs attribute (AttributeValue objects carry one) is no attribute in XML
+                for q in [q for q in x.attrib if q.startswith("xmlns")]:
+                    del x.attrib[q]
             out.append(("wrong-ns", t))
     t = copy.deepcopy(tree)
     t.tag = t.tag + "X"
     out.append(("root-mismatch", t))
+    return out
+
+
+def doc_variants(ctx, T, gen, cid, tree):
+    """documents every class is parsed from on every run: pretty-printed (tails, white-space text, other attribute
+    order), with look-alike children, with look-alike attributes in front of the declared ones"""
+    r = ctx.rng
+    out = [("pretty", c12_gen.pretty(r, tree, gen))]
+    t = c12_gen.with_lookalike_child(r, T, gen, cid, tree, cap=8 if ctx.quick else 1000)
+    if t is not None:
+        out.append(("lookalike-child", c12_gen.pretty(r, t, gen) if r.random() < 0.5 else t))
+    t = c12_gen.with_lookalike_attrs(r, T, gen, cid, tree)
+    if t is not None:
+        out.append(("lookalike-attr", t))
     return out
 
 
@@ -321,6 +541,20 @@ def av_trees(T, cid):
     e.text = "t"
     ET.SubElement(e, "{urn:pv:foreign}K")
     out.append(e)
+    # pretty-printed: white-space text in front of a child, tails behind the children
+    e = ET.Element(tag)
+    e.text = "\n  "
+    k = ET.SubElement(e, "{urn:oasis:names:tc:SAML:2.0:assertion}NameID")
+    k.text, k.tail = "n", "\n"
+    out.append(e)
+    e = ET.Element(tag, {XSI + "type": "xs:string"})
+    e.text = " "
+    out.append(e)
+    e = ET.Element(tag)
+    k = ET.SubElement(e, "{urn:pv:foreign}K")
+    k.text, k.tail = " k ", "tail text"
+    ET.SubElement(k, "{urn:pv:foreign}L").tail = " "
+    out.append(e)
     return out
 
 
@@ -344,17 +578,21 @@ def run(ctx):
 
     skip_members = {(c, m) for c, m, r in bad if r in (1, 2)}
     skip_classes = {c for c, m, r in bad if r == 3}
-    gen = Gen(ctx.rng, T, skip_members, skip_classes)
+    gen = Gen12(ctx.rng, T, skip_members, skip_classes)
     k = 2 if ctx.quick else 25
     ser_cases, parse_cases = [], []
     n_fail = 0
+    n_doc = 0
     for cid in range(len(T.classes)):
         qn = T.qname[cid]
         for j in range(k):
-            o = gen.obj(cid, depth=3, full=(j == 0))
+            # look-alike attributes: instance 0 carries them TOGETHER with the declared attribute (every attribute is set),
+            # instance 1 ALONE (the declared attribute unset); thorough: for every declared attribute and every kind
+            look = "together" if j == 0 else "alone" if j == 1 else ctx.rng.choice([None, "together", "alone"])
+            o = gen.obj(cid, depth=3, full=(j == 0), look=look, look_all=(not ctx.quick and j < 2))
             coq = obj_to_coq(T, o)
             tree = call(o._to_element_tree)
-            impl = et_to_val(T, tree) if not isinstance(tree, Exn) else tree
+            impl = et_to_dval(T, tree) if not isinstance(tree, Exn) else tree
             ser_cases.append(dict(id="%s#%d" % (qn, j), coq=coq, impl=impl, show=dict(cls=qn, case=j, xml=schema_gen.describe(T, o))))
             ctx.count("serialise:" + ("raises-" + tree.name if isinstance(tree, Exn) else "ok"))
             if isinstance(tree, Exn):
@@ -362,23 +600,45 @@ def run(ctx):
             else:
                 trees = [("straight", tree)]
                 if j == 0 or not ctx.quick:
+                    trees += doc_variants(ctx, T, gen, cid, tree)
                     ms = mutations(ctx, T, gen, cid, tree)
-                    trees += ms if not ctx.quick else ctx.rng.sample(ms, min(2, len(ms)))
+                    trees += ms if not ctx.quick else ctx.rng.sample(ms, min(1, len(ms)))
+                else:
+                    trees.append(("pretty", c12_gen.pretty(ctx.rng, tree, gen)))
             for kind, t in trees:
                 got = call(saml2_tophat.create_class_from_element_tree, T.classes[cid], t)
                 pimpl = got if isinstance(got, Exn) else obj_to_val(T, got)
-                parse_cases.append(dict(id="%s#%d:%s" % (qn, j, kind), coq="(%d, %s)" % (cid, et_to_coq(T, t)), impl=pimpl,
-                                        show=dict(cls=qn, case=j, kind=kind, xml=ET.tostring(t, encoding="unicode")[:400])))
+                parse_cases.append(dict(id="%s#%d:%s" % (qn, j, kind), coq="(%d, %s)" % (cid, et_to_dcoq(T, t)), impl=pimpl,
+                                        show=dict(cls=qn, case=j, kind=kind, xml=doc_string(t)[:400])))
                 ctx.count("parse:" + kind + (":raises-" + got.name if isinstance(got, Exn) else ":none" if got is None else ""))
+                # the property on the document, against the library's own tables; then the parsed object must round-trip
+                if kind != "root-mismatch" and not isinstance(got, Exn) and T.rows[cid]["tag"]:
+                    res = doc_check(T, gen.av, T.classes[cid], t, got)
+                    if res is None and got is not None and kind != "straight":
+                        r2 = oracle_roundtrip(ctx, T, got, bad_classes)
+                        res = r2[:2] if r2 else None
+                    n_doc += 1
+                    if res:
+                        n_fail += 1
+                        ctx.oracle_fail(res[0], res[1], {"unit": "doc", "class": qn, "kind": kind, "xml": doc_string(t)})
             # the property itself on the implementation
             res = oracle_roundtrip(ctx, T, o, bad_classes) if T.rows[cid]["tag"] else None   # c_tag == "": abstract base, no XML form
             if res:
                 n_fail += 1
                 ctx.oracle_fail(res[0], res[1], {"unit": "roundtrip", "class": qn, "xml": res[2].decode("utf8") if res[2] else None})
+            res = oracle_ext_conversion(T, gen.av, o) if (T.rows[cid]["tag"] and not isinstance(tree, Exn)) else None
+            if T.rows[cid]["tag"]:
+                ctx.count("oracle:ext-conversion" + (":fails" if res else ""))
+            if res:
+                n_fail += 1
+                ctx.oracle_fail(res[0], res[1], {"unit": "ext-conversion", "class": qn, "xml": res[2].decode("utf8") if res[2] else None})
             if not isinstance(tree, Exn) and (len(tree) or any(a in tree.attrib for a in [T.names[x[0]] for x in T.rows[cid]["attrs"]])):
                 ctx.nontriv(ET.tostring(tree))
             if cid % 150 == 0 and j == 0:
                 ctx.sample(dict(cls=qn, xml=schema_gen.describe(T, o, 300)))
+    ctx.count("oracle:documents-checked", n_doc)
+    for key in sorted(gen.stats):
+        ctx.count("gen:" + key, gen.stats[key])
     # cls() of every class is the model's fresh_inst (C12_every_class_has_instances speaks about it)
     fresh_cases = []
     for cid in range(len(T.classes)):
@@ -398,22 +658,22 @@ def run(ctx):
         for t in av_trees(T, cid):
             got = call(saml2_tophat.create_class_from_element_tree, T.classes[cid], t)
             pimpl = got if isinstance(got, Exn) else obj_to_val(T, got)
-            parse_cases.append(dict(id="%s:av" % T.qname[cid], coq="(%d, %s)" % (cid, et_to_coq(T, t)), impl=pimpl,
+            parse_cases.append(dict(id="%s:av" % T.qname[cid], coq="(%d, %s)" % (cid, et_to_dcoq(T, t)), impl=pimpl,
                                     show=dict(cls=T.qname[cid], kind="av", xml=ET.tostring(t, encoding="unicode"))))
             ctx.count("parse:av" + (":raises-" + got.name if isinstance(got, Exn) else ""))
         for kind in ["str", "nil", "int", "bool", "b64", "xsd", "ext"]:
             for _ in range(2 if ctx.quick else 10):
                 o = gen.av_obj(cid, kind)
                 tree = o._to_element_tree()
-                ser_cases.append(dict(id="%s:av:%s" % (T.qname[cid], kind), coq=obj_to_coq(T, o), impl=et_to_val(T, tree),
+                ser_cases.append(dict(id="%s:av:%s" % (T.qname[cid], kind), coq=obj_to_coq(T, o), impl=et_to_dval(T, tree),
                                       show=dict(cls=T.qname[cid], kind=kind, xml=schema_gen.describe(T, o))))
                 got = call(saml2_tophat.create_class_from_element_tree, T.classes[cid], tree)
-                parse_cases.append(dict(id="%s:avobj:%s" % (T.qname[cid], kind), coq="(%d, %s)" % (cid, et_to_coq(T, tree)),
+                parse_cases.append(dict(id="%s:avobj:%s" % (T.qname[cid], kind), coq="(%d, %s)" % (cid, et_to_dcoq(T, tree)),
                                         impl=got if isinstance(got, Exn) else obj_to_val(T, got), show=dict(cls=T.qname[cid], kind=kind)))
     ctx.extra["names_interned"] = {"tables": n_gen_names, "with_generated_foreign_names": len(T.names)}
     corr_retry.correspond(ctx, "fresh", IMPORTS, FRESH_MODEL, "N", fresh_cases, shard=400, timeout=900)
     corr_retry.correspond(ctx, "serialise", IMPORTS, SER_MODEL, "inst", ser_cases, shard=60, timeout=900)
-    corr_retry.correspond(ctx, "parse", IMPORTS, PARSE_MODEL, "(N * xtree)", parse_cases, shard=60, timeout=900)
+    corr_retry.correspond(ctx, "parse", IMPORTS, PARSE_MODEL, "(N * dtree)", parse_cases, shard=60, timeout=900)
     ctx.count("oracle:roundtrip-failures", n_fail)
     ctx.notes.append("classes: %d; instances per class: %d; kernel-computed bad rows: %d" % (len(T.classes), k, len(bad)))
 
@@ -430,6 +690,28 @@ def replay(ctx, payload):
         print("reproduced" if ok else "NOT reproduced")
         return 0
     xml = inp.get("xml")
+    if xml and inp.get("class") and inp.get("unit") in ("doc", "roundtrip", "ext-conversion"):
+        # re-run the oracle that failed on the recorded document
+        cls = T.classes[T.qname.index(inp["class"])]
+        av = {r["id"] for r in T.rows if r["over"]}
+        tree = ET.fromstring(xml)       # keeps text and tails as they were
+        got = call(saml2_tophat.create_class_from_element_tree, cls, tree)
+        print("document:", xml[:1500])
+        print("parsed:", got if isinstance(got, Exn) or got is None else "object of " + type(got).__name__)
+        res = None
+        if not isinstance(got, Exn):
+            res = doc_check(T, av, cls, tree, got)
+            if res is None and got is not None:
+                r2 = oracle_roundtrip(ctx, T, got, set())
+                res = r2[:2] if r2 else None
+            if res is None and got is not None and inp.get("unit") == "ext-conversion":
+                r2 = oracle_ext_conversion(T, av, got)
+                res = r2[:2] if r2 else None
+        if res:
+            print("oracle:", res[0])
+            print("       ", res[1])
+        print("reproduced" if res else "NOT reproduced on this document (the failure needed the generated object itself: see 'what')")
+        return 0
     if xml and inp.get("class"):
         cls = T.classes[T.qname.index(inp["class"])]
         o = call(saml2_tophat.create_class_from_xml_string, cls, xml)
